@@ -115,7 +115,15 @@ def run_shard(ctx):
         feats = LW.feats_for(cfg, ctx.rng)
         feats.discard('difflabels')
         env = LW.tl_env(cfg, feats, ctx.rng)
-        body = gen_body(ctx.rng, env, sentinel='ins_101();', max_depth=ctx.rng.pick([1, 2, 3]), max_stmts=ctx.rng.pick([3, 6, 10]), expr_depth=ctx.rng.pick([1, 2, 3, 4]))
+        body = None
+        if ctx.rng.chance(0.15):
+            # directed: one register mentioned once in a chosen context, under register pressure (see lowering.gen_single_mention)
+            nm = (lambda x: TL.NAMES[x]) if cfg.aliases else (lambda x: 'REG[%d]' % x)
+            si, sf = cfg.scratch()
+            body = LW.gen_single_mention(ctx.rng, si, sf, TL.EXTRA_INT[1:] + TL.EXTRA_INT[:1], TL.EXTRA_FLOAT, nm)
+            if body is not None: ctx.count('directed_single_mention')
+        if body is None:
+            body = gen_body(ctx.rng, env, sentinel='ins_101();', max_depth=ctx.rng.pick([1, 2, 3]), max_stmts=ctx.rng.pick([3, 6, 10]), expr_depth=ctx.rng.pick([1, 2, 3, 4]))
         LW.reconcile_mentions(ctx, body)
         req, resp = LW.run_case(ctx, cfg, body, nstates, presimplify=ctx.rng.chance(0.5))
         judge(ctx, cfg, body, req, resp)
